@@ -22,6 +22,8 @@ type c04Input struct {
 	// Specs are kept so that a corpus entry can be re-ingested
 	S1 *TableSpec `json:"s1,omitempty"`
 	S2 *TableSpec `json:"s2,omitempty"`
+	// Via: how the tables reached the store they are diffed in (absent = ingested there)
+	Via *c04Via `json:"via,omitempty"`
 }
 
 type diffEv struct {
@@ -184,21 +186,68 @@ func mutateTable(r *rand.Rand, t *TableSpec, mode int) *TableSpec {
 }
 
 func c04Case(ctx *Ctx, s1, s2 *TableSpec, cfg1, cfg2 IngestCfg, tags ...string) {
+	c04CaseVia(ctx, s1, s2, cfg1, cfg2, nil, tags...)
+}
+
+// c04Via says where the diffed tables come from: ingested in the store they are diffed in (nil), or
+// ingested in an origin store and received through the real packfile sender/receiver into the store
+// they are diffed in - so their table index and block indices are the ones the receiver rebuilt.
+type c04Via struct {
+	Xfer Xfer `json:"xfer"`
+	// Recv1/Recv2: is the first/second table a received one (the other is ingested locally)
+	Recv1 bool `json:"recv1"`
+	Recv2 bool `json:"recv2"`
+}
+
+func c04CaseVia(ctx *Ctx, s1, s2 *TableSpec, cfg1, cfg2 IngestCfg, via *c04Via, tags ...string) {
 	db := NewMemStore()
-	sum1, err := IngestCSV(db, s1.CSV(0), s1.PK, cfg1)
+	origin := objects.Store(db)
+	if via != nil {
+		origin = NewMemStore()
+	}
+	at := func(received bool) objects.Store {
+		if via != nil && received {
+			return origin
+		}
+		return db
+	}
+	in0 := c04Input{S1: s1, S2: s2, Via: via}
+	sum1, err := IngestCSV(at(via != nil && via.Recv1), s1.CSV(0), s1.PK, cfg1)
 	if err != nil {
-		ctx.Emit("diff", c04Input{S1: s1, S2: s2}, Err("ingest1"), false, "ingest-error")
+		ctx.Emit("diff", in0, Err("ingest1"), false, "ingest-error")
 		return
 	}
-	sum2, err := IngestCSV(db, s2.CSV(0), s2.PK, cfg2)
+	sum2, err := IngestCSV(at(via != nil && via.Recv2), s2.CSV(0), s2.PK, cfg2)
 	if err != nil {
-		ctx.Emit("diff", c04Input{S1: s1, S2: s2}, Err("ingest2"), false, "ingest-error")
+		ctx.Emit("diff", in0, Err("ingest2"), false, "ingest-error")
 		return
+	}
+	if via != nil {
+		var sums [][]byte
+		// the second (old) version travels first, as history does
+		if via.Recv2 {
+			sums = append(sums, sum2)
+		}
+		if via.Recv1 && !(via.Recv2 && string(sum1) == string(sum2)) {
+			sums = append(sums, sum1)
+		}
+		var terr error
+		res := Guard(func() Res {
+			terr = transferTables(origin, db, sums, via.Xfer)
+			return nil
+		})
+		if res != nil || terr != nil {
+			if res == nil {
+				res = Err("transfer")
+			}
+			ctx.Emit("diff", in0, res, false, "transfer-error")
+			return
+		}
 	}
 	d1, err1 := DumpTable(db, sum1, true)
 	d2, err2 := DumpTable(db, sum2, true)
 	if err1 != nil || err2 != nil {
-		ctx.Emit("diff", c04Input{S1: s1, S2: s2}, Err("dump"), false, "dump-error")
+		ctx.Emit("diff", in0, Err("dump"), false, "dump-error")
 		return
 	}
 	res := runDiff(db, db, sum1, sum2)
@@ -227,7 +276,7 @@ func c04Case(ctx *Ctx, s1, s2 *TableSpec, cfg1, cfg2 IngestCfg, tags ...string) 
 	if len(s1.PK) == 0 {
 		tags = append(tags, "keyless")
 	}
-	ctx.Emit("diff", c04Input{T1: d1, T2: d2, S1: s1, S2: s2}, res, nt, tags...)
+	ctx.Emit("diff", c04Input{T1: d1, T2: d2, S1: s1, S2: s2, Via: via}, res, nt, tags...)
 }
 
 // windowShapes: two keyed tables of several blocks whose block boundaries relate in varied ways
@@ -288,6 +337,55 @@ func windowShapes(r *rand.Rand, variant int) (*TableSpec, *TableSpec) {
 	return t1, t2
 }
 
+// runC04Received: the diff of tables that arrived over the wire (one or both sides). The pairs are the
+// ones of the other cases - window shapes on even turns, a generated table and its mutation on odd
+// turns - with the columns of both tables shuffled the same way, so that the key sits in any columns
+// in any order.
+func runC04Received(ctx *Ctx) {
+	r := ctx.R
+	k := ctx.Idx / 8
+	var s1, s2 *TableSpec
+	var tag string
+	if k%2 == 0 {
+		variant := (k / 2) % 3
+		s1, s2 = windowShapes(r, variant)
+		tag = fmt.Sprintf("mode=window-shapes-%d", variant)
+	} else {
+		maxBlocks := 2
+		if ctx.Thorough() {
+			maxBlocks = 4
+		}
+		nCols := 1 + r.Intn(3)
+		pk := genPK(r, nCols)
+		s1 = GenTable(r, nCols, genRowCount(r, maxBlocks), pk, 0)
+		mode := r.Intn(6)
+		s2 = mutateTable(r, s1, mode)
+		if r.Intn(2) == 0 {
+			s1, s2 = s2, s1
+		}
+		tag = fmt.Sprintf("mode=%d", mode)
+	}
+	tags := []string{tag, "received"}
+	if r.Intn(4) != 0 {
+		shuffleColumns(r, s1, s2)
+		tags = append(tags, "columns-shuffled")
+	}
+	if !keyLeading(s1) {
+		tags = append(tags, "key-not-leading")
+	}
+	via := &c04Via{Xfer: genXfer(r), Recv1: true, Recv2: true}
+	switch r.Intn(4) {
+	case 0:
+		via.Recv1 = false
+		tags = append(tags, "received-vs-local")
+	case 1:
+		via.Recv2 = false
+		tags = append(tags, "received-vs-local")
+	}
+	tags = append(tags, via.Xfer.tags()...)
+	c04CaseVia(ctx, s1, s2, IngestCfg{}, IngestCfg{}, via, tags...)
+}
+
 func runC04(ctx *Ctx) {
 	r := ctx.R
 	if ctx.Idx%12 == 11 {
@@ -298,6 +396,10 @@ func runC04(ctx *Ctx) {
 		variant := (ctx.Idx / 4) % 3
 		s1, s2 := windowShapes(r, variant)
 		c04Case(ctx, s1, s2, IngestCfg{}, IngestCfg{}, fmt.Sprintf("mode=window-shapes-%d", variant))
+		return
+	}
+	if ctx.Idx%8 == 6 {
+		runC04Received(ctx)
 		return
 	}
 	maxBlocks := 2
@@ -336,5 +438,5 @@ func corpusC04(ctx *Ctx, op string, raw json.RawMessage) {
 		ctx.Emit("diff-cli", ci, c04CLIRun(in.S1, in.S2), true, "cli", "corpus")
 		return
 	}
-	c04Case(ctx, in.S1, in.S2, IngestCfg{}, IngestCfg{}, "corpus")
+	c04CaseVia(ctx, in.S1, in.S2, IngestCfg{}, IngestCfg{}, in.Via, "corpus")
 }
